@@ -83,6 +83,14 @@ _DYN = [
     "    for rxn, der in dstoich.items():\n"
     "        eqs[cpd] = eqs.get(cpd, sympy.Float(0.0)) + fn_to_sympy(der.fn, [symbols[i] for i in der.args] * rxns[rxn])",
 ]
+_DYN_FIXED = [
+    "for cpd, dstoich in cache.dyn_stoich_by_cpds.items():\n"
+    "    for rxn, der in dstoich.items():\n"
+    "        if (coef := fn_to_sympy(der.fn, origin=rxn, model_args=[symbols[i] for i in der.args])) is None:\n"
+    "            msg = f\"Unable to parse stoichiometry of '{cpd}' in reaction '{rxn}'\"\n"
+    "            raise ValueError(msg)\n"
+    "        eqs[cpd] = eqs.get(cpd, sympy.Float(0.0)) + coef * rxns[rxn]",
+]
 _RET = [
     "return SymbolicModel(variables=variables, parameters=parameters, eqs=[eqs[i] for i in cache.var_names], "
     "initial_conditions=model.get_initial_conditions(), parameter_values=model.get_parameter_values(), external=data | surrogates)"
@@ -100,6 +108,14 @@ _PAR_VALUES_DEF = (
 )
 _JAC_LINE = "_jac = to_symbolic_model(self.model).jacobian()"
 _HANDLER = "_LOGGER.warning(str(e), stacklevel=2)"
+_SHIFT_HEAD = [
+    "t_shift = 0.0 if self._time_shift is None else self._time_shift",
+    "rhs: Rhs = self.model if self._time_shift is None else lambda t, y: self.model(t + t_shift, y)",
+]
+_TAIL_SHIFT = [
+    "y0 = self.y0",
+    "self.integrator = self._integrator_type(rhs, tuple((y0[k] for k in self.model.get_variable_names())), jac_fn)",
+]
 _TAIL = [
     "y0 = self.y0",
     "self.integrator = self._integrator_type(self.model, tuple((y0[k] for k in self.model.get_variable_names())), jac_fn)",
@@ -123,7 +139,7 @@ def _find_fn(tree: ast.AST, name: str, cls: str | None = None) -> ast.FunctionDe
 def extract_facts() -> dict[str, str]:
     facts = {
         "order": "OrdUnknown", "symtab": "SymUnknown", "stat": "StatUnknown", "dyn": "DynUnknown", "eqs": "EqsUnknown",
-        "jac": "JacUnknown", "lam": "LamUnknown", "third": "ThirdUnknown", "fallback": "FallbackUnknown",
+        "jac": "JacUnknown", "lam": "LamUnknown", "third": "ThirdUnknown", "fallback": "FallbackUnknown", "time": "TimeUnknown",
     }
     try:
         tree = ast.parse((common.REPO / "src/mxlpy/symbolic/symbolic_model.py").read_text())
@@ -148,6 +164,8 @@ def extract_facts() -> dict[str, str]:
                 off += len(_RXN) + len(_STAT)
                 if b[off : off + 1] == _DYN:
                     facts["dyn"] = "DynListTimesRate"
+                elif b[off : off + 1] == _DYN_FIXED:
+                    facts["dyn"] = "DynCoefTimesRate"
                 if b[off + 1 :] == _RET:
                     facts["eqs"] = "EqsByVarNames"
                 if facts["order"] != "OrdUnknown":
@@ -163,6 +181,10 @@ def extract_facts() -> dict[str, str]:
         fn = _find_fn(tree2, "_initialise_integrator", "Simulator")
         if fn is not None:
             stmts = [s for s in fn.body if not (isinstance(s, ast.Expr) and isinstance(s.value, ast.Constant))]
+            tail, time_args, time_fact = _TAIL, ["t", "x"], "TimePlain"
+            if [ast.unparse(s) for s in stmts[:2]] == _SHIFT_HEAD:
+                stmts = stmts[2:]
+                tail, time_args, time_fact = _TAIL_SHIFT, ["t + t_shift", "x"], "TimeShifted"
             if (
                 len(stmts) == 4
                 and ast.unparse(stmts[0]) == "jac_fn = None"
@@ -171,7 +193,7 @@ def extract_facts() -> dict[str, str]:
                 and not stmts[1].orelse
                 and len(stmts[1].body) == 1
                 and isinstance(stmts[1].body[0], ast.Try)
-                and [ast.unparse(s) for s in stmts[2:]] == _TAIL
+                and [ast.unparse(s) for s in stmts[2:]] == tail
             ):
                 tr = stmts[1].body[0]
                 if (
@@ -194,9 +216,10 @@ def extract_facts() -> dict[str, str]:
                         and ast.unparse(la.body.func) == "_jac_fn"
                         and not la.body.keywords
                         and len(la.body.args) == 3
-                        and [ast.unparse(a) for a in la.body.args[:2]] == ["t", "x"]
+                        and [ast.unparse(a) for a in la.body.args[:2]] == time_args
                     ):
                         third = ast.unparse(la.body.args[2])
+                        facts["time"] = time_fact
                 if tb[:1] == [_JAC_LINE] and len(tb) == 3 and tb[1] == _LAM_OLD:
                     facts["lam"] = "LamTimeVarsPars"
                     if third == "self.model._parameters.values()":
@@ -218,7 +241,7 @@ def gen() -> dict[str, str]:
         "   An unrecognised shape yields a *Unknown constructor, which breaks C12_facts_pinned. *)\n"
         "From Symbolic Require Import SymModel.\n"
         "Definition gen_sym_facts : sym_facts :=\n"
-        f"  mkSymFacts {f['order']} {f['symtab']} {f['stat']} {f['dyn']} {f['eqs']} {f['jac']} {f['lam']} {f['third']} {f['fallback']}.\n"
+        f"  mkSymFacts {f['order']} {f['symtab']} {f['stat']} {f['dyn']} {f['eqs']} {f['jac']} {f['lam']} {f['third']} {f['fallback']} {f['time']}.\n"
     )
     common.write_if_changed(common.area_dir(AREA) / "GenSymFacts.v", text)
     return f
@@ -291,8 +314,14 @@ def observe(desc: dict, t: int, x: list[int], p2: dict[int, int] | None) -> dict
     try:
         sm = to_symbolic_model(m)
         out["sm"] = sm
+        known_syms = set(sm.variables.values()) | set(sm.parameters.values()) | set(sm.external.values())
+        stray = sorted({str(x) for e in sm.eqs for x in sympy.sympify(e).free_symbols if x not in known_syms})
         if list(sm.variables) != names or len(sm.eqs) != len(names):
             out["sym"] = ("err", "ErrOther:shape")
+        elif stray:
+            # returned equations mention symbols that are neither variables nor parameters of the
+            # symbolic model: they cannot be evaluated at "a state and parameter setting"
+            out["sym"] = ("stray", stray, [str(e) for e in sm.eqs])
         else:
             ev, jv = sym_at(sm, m.get_parameter_values())
             out["sym"] = ("ok", ev, jv)
@@ -303,6 +332,8 @@ def observe(desc: dict, t: int, x: list[int], p2: dict[int, int] | None) -> dict
     # the simulator's closure
     try:
         sim = Simulator(m, integrator=partial(Scipy, method="BDF"), use_jacobian=True)
+        if getattr(sim, "_time_shift", None) is not None:
+            raise c12_gen.InputAssumptionBroken("a freshly constructed Simulator has a time shift")
         jf = sim.integrator.jacobian
         out["sim"] = sim
         if jf is None:
@@ -401,6 +432,11 @@ def judge(desc: dict, obs: dict) -> tuple[list[str], list[str]]:
 
     if obs["sym"][0] == "err" and conv:
         bad.append(f"a convertible model (kind {desc['kind']}) is refused: {obs['sym'][1]}")
+    if obs["sym"][0] == "stray":
+        bad.append(
+            f"to_symbolic_model returns equations {obs['sym'][2]} that mention {obs['sym'][1]}, which are neither variables nor "
+            "parameters of the model (wrong equations instead of an exception)"
+        )
     check_sym(obs["sym"], obs["exact_rhs"], obs["exact_jac"], "at the model's parameters", stale_ok=False)
     check_clo(obs["clo"], obs["exact_jac"], obs["sym"], "at the model's parameters", stale_ok=False)
     if obs["sym"][0] == "err" and obs["clo"][0] == "mat":
@@ -438,6 +474,8 @@ def coq_case(inputs: dict, t: int, x: list[int], sym, clo, rates, rhs) -> str | 
             if ev is None or any(r is None for r in jv):
                 return None
             c_sym = f"(ObsVals {c12_gen.c_qlist(ev)} {c12_gen.c_qmat(jv)})"
+        elif sym[0] == "stray":
+            c_sym = "(ObsErr ErrUnmodelled)"
         else:
             c_sym = f"(ObsErr {c12_gen.c_err(sym[1])})"
         if clo[0] == "nojac":
@@ -458,9 +496,13 @@ def coq_case(inputs: dict, t: int, x: list[int], sym, clo, rates, rhs) -> str | 
     point = [(v, Fraction(xi)) for v, xi in zip(inputs["vars"], x, strict=True)] + [(n, v[1]) for n, v in inputs["pars"] if v[0] == "plain"]
     c_point = clist(f"({cn(n)}, {cq(q)})" for n, q in point)
     c_rates = clist(f"({cn(n)}, {cq(q)})" for (n, _), q in zip(rates, rv, strict=True))
+    if any(abs(q) >= BIG for _, q in inputs["pv"]):
+        return None
+    c_pv = clist(f"({cn(n)}, {cq(q)})" for n, q in inputs["pv"])
     return (
         f"(mkCase {c12_gen.c_model(inputs)}\n    {c_point} {cq(t)} {c12_gen.c_qlist([Fraction(v) for v in x])}\n"
-        f"    {c_sym}\n    {c_clo}\n    {c_rates} {c12_gen.c_qlist(rh)})"
+        f"    {c_sym}\n    {c_clo}\n    {c_rates} {c12_gen.c_qlist(rh)}\n"
+        f"    {c12_gen.c_raw(inputs)} {clist(map(cn, inputs['parnames']))} {c_pv})"
     )
 
 
@@ -666,6 +708,8 @@ def frozen_witness() -> tuple[bool, str]:
 
 def _cases(run: Run, rng, n_models: int):
     """yield (desc, t, x, p2)"""
+    for desc, t, x, p2 in c12_gen.CORPUS:
+        yield desc, t, x, p2
     fixed_kinds = list(dict.fromkeys(c12_gen.KINDS))
     for i in range(n_models):
         kind = fixed_kinds[i] if i < len(fixed_kinds) else None
@@ -694,7 +738,7 @@ def check(run: Run) -> None:
     run.coverage["gen_facts"] = facts
     run.rule = (
         "models: random surrogate-free models over the polynomial function table (harness/fnlib + the polynomial members of "
-        "mxlpy.fns), 1-4 variables, 0-4 parameters, 0-5 derived values in chains, 1-5 reactions with dyadic coefficients; kinds: "
+        "mxlpy.fns), 1-4 variables, 0-4 parameters, 0-5 derived values in chains, 1-5 reactions with dyadic coefficients; first the corpus of minimised past failures (c12_gen.CORPUS); kinds: "
         "plain / derived+reactions+parameters declared in shuffled, reversed and permuted order / assignment-defined parameter "
         "(referenced or not, declared first) / assignment-defined variable / time / computed coefficient (state dependent or "
         "parameter only) / variable without reaction / derived value of a rate / untranslatable function / data / readout / no "
@@ -712,6 +756,8 @@ def check(run: Run) -> None:
         "the three are validated by the correspondence on every run, not proved",
         "fact extractor harness/c12.py::extract_facts (fail-closed ast matcher over to_symbolic_model, SymbolicModel.jacobian, Simulator._initialise_integrator)",
         "the model takes the ModelCache tables (order, stoich_by_cpds, dyn_stoich_by_cpds, var_names, all_parameter_values) as INPUT; that the cache is what C01/C02/C03 prove it to be is not re-proved here",
+        "cache.order being a topological order of the derived values (hypothesis OrderOk of C12_any_declaration_order) is property C02's theorem; 'Resolved env' (every derived value / rate has its function's value) is what C01 proves the numeric model computes",
+        "the snapshot's dynamic-coefficient statement (fact DynListTimesRate) is modelled on non-Integer rate expressions only; the Integer-rate branch (list repetition, unsubstituted body) is demonstrated on the code by the corpus witness, not modelled",
         "polynomial fragment over Q; rational rate laws (Michaelis-Menten, div) are covered by the oracle and the simulations only; floating point is outside the model",
         "scipy.integrate (solve_ivp LSODA/BDF/Radau) is exercised, not modelled: trajectory agreement is validation with tolerance 1e-4 relative (solver rtol=atol=1e-8)",
         "correspondence harness: literal printer, exactness guard |v| < 2^20, coqc output parser",
@@ -745,7 +791,7 @@ def check(run: Run) -> None:
         finally:
             signal.setitimer(signal.ITIMER_REAL, 0)
         kinds[desc["kind"]] = kinds.get(desc["kind"], 0) + 1
-        okind = obs["sym"][0] if obs["sym"][0] == "ok" else obs["sym"][1]
+        okind = obs["sym"][0] if obs["sym"][0] in ("ok", "stray") else obs["sym"][1]
         outcomes[okind] = outcomes.get(okind, 0) + 1
         ck = obs["clo"][0] if obs["clo"][0] in ("mat", "nojac") else obs["clo"][1]
         clo_outcomes[ck] = clo_outcomes.get(ck, 0) + 1
